@@ -31,6 +31,8 @@ type Eng struct {
 	globalInit map[string]string
 	extra   map[string]bool
 	ptrField map[int]bool // field ids whose Go type is a pointer
+	known    map[string]bool
+	intField map[int]*types.Basic
 }
 
 // GuardRule is an automatic obligation attached to stores into certain heap components.
@@ -178,10 +180,14 @@ func (e *Eng) prescan() {
 	}
 	e.reg.freeze()
 	e.ptrField = map[int]bool{}
+	e.intField = map[int]*types.Basic{}
 	for _, si := range e.reg.structOrd {
 		for _, fi := range si.Fields {
 			if _, isPtr := fi.Type.Underlying().(*types.Pointer); isPtr {
 				e.ptrField[fi.Fid] = true
+			}
+			if bt, ok := fi.Type.Underlying().(*types.Basic); ok && bt.Info()&types.IsInteger != 0 {
+				e.intField[fi.Fid] = bt
 			}
 		}
 	}
